@@ -41,34 +41,69 @@ extern void mpt_gnode_swap(MPT_STRUCT(node) *pri, MPT_STRUCT(node) *sec)
  */
 extern void mpt_gnode_switch(MPT_STRUCT(node) *pri, MPT_STRUCT(node) *sec)
 {
-	MPT_STRUCT(node) *parent, *next, *prev, *tmp;
+	MPT_STRUCT(node) *pparent, *pnext, *pprev, *sparent, *snext, *sprev;
 	
+	if (pri == sec) {
+		return;
+	}
+	/* direct neighbours: primary is the leading one */
+	if (sec->next == pri) {
+		pnext = pri;
+		pri = sec;
+		sec = pnext;
+	}
 	/* save node pointers */
-	parent	= pri->parent;
-	next	= pri->next;
-	prev	= pri->prev;
+	pparent = pri->parent;
+	pnext   = pri->next;
+	pprev   = pri->prev;
+	sparent = sec->parent;
+	snext   = sec->next;
+	sprev   = sec->prev;
 	
+	/* exchange order of neighbours */
+	if (pnext == sec) {
+		sec->prev = pprev;
+		sec->next = pri;
+		pri->prev = sec;
+		pri->next = snext;
+		if (snext) {
+			snext->prev = pri;
+		}
+		if (pprev) {
+			pprev->next = sec;
+		}
+		else if (pparent && pparent->children == pri) {
+			pparent->children = sec;
+		}
+		return;
+	}
 	/* reassign primary */
-	if ((pri->next = tmp = sec->next)) {
-		tmp->prev = pri;
-	}
-	else if ((pri->parent = tmp = sec->parent)
-	         && tmp->children == sec) {
-		tmp->children = pri;
-	}
-	if ((pri->prev = tmp = sec->prev)) {
-		tmp->next = pri;
-	}
+	pri->parent = sparent;
+	pri->next   = snext;
+	pri->prev   = sprev;
 	/* reassign secondary */
-	if ((sec->next = next)) {
-		next->prev = sec;
+	sec->parent = pparent;
+	sec->next   = pnext;
+	sec->prev   = pprev;
+	
+	/* update references to primary */
+	if (snext) {
+		snext->prev = pri;
 	}
-	else if ((sec->parent = parent)
-	         && parent->children == pri) {
-		parent->children = sec;
+	if (sprev) {
+		sprev->next = pri;
 	}
-	if ((sec->prev = prev)) {
-		prev->next = sec;
+	else if (sparent && sparent->children == sec) {
+		sparent->children = pri;
+	}
+	/* update references to secondary */
+	if (pnext) {
+		pnext->prev = sec;
+	}
+	if (pprev) {
+		pprev->next = sec;
+	}
+	else if (pparent && pparent->children == pri) {
+		pparent->children = sec;
 	}
 }
-
